@@ -163,7 +163,7 @@ func (o *noTrace) applyOption(d *definition) {
 }
 
 func (o *stackSkip) applyOption(d *definition) {
-	d.stackSkip += o.skip
+	d.stackSkip = addSkip(d.stackSkip, o.skip)
 }
 
 func (o *stackDepth) applyOption(d *definition) {
